@@ -12,6 +12,7 @@ import (
 	"math/big"
 	"os"
 	"path/filepath"
+	"sync"
 	"time"
 
 	"go.temporal.io/server/common/log"
@@ -45,14 +46,60 @@ type tlsCred struct {
 	issuer *tlsCA
 }
 
+// The process-wide "system" trust store. Go loads the system roots once per process (from
+// SSL_CERT_FILE / SSL_CERT_DIR on Linux), so the harness installs one long-lived CA of its own
+// there before anything verifies against nil roots; a proxy TLS client configured without a
+// CA file (RemoteCAPath empty) trusts exactly this CA.
+var (
+	sysCAOnce sync.Once
+	sysCA     *tlsCA
+	sysCAErr  error
+)
+
+func systemCA() (*tlsCA, error) {
+	sysCAOnce.Do(func() {
+		epoch := time.Date(2000, 1, 1, 0, 0, 0, 0, time.UTC) // the bubble clock starts here
+		sysCA, sysCAErr = newCAValid("harness-system-root", epoch.Add(-24*time.Hour), epoch.Add(50*365*24*time.Hour))
+		if sysCAErr != nil {
+			return
+		}
+		dir, err := os.MkdirTemp("", "vsim-sysca-")
+		if err != nil {
+			sysCAErr = err
+			return
+		}
+		defer os.RemoveAll(dir)
+		f := filepath.Join(dir, "roots.pem")
+		if sysCAErr = os.WriteFile(f, sysCA.pem, 0o600); sysCAErr != nil {
+			return
+		}
+		_ = os.Mkdir(filepath.Join(dir, "empty"), 0o700)
+		os.Setenv("SSL_CERT_FILE", f)
+		os.Setenv("SSL_CERT_DIR", filepath.Join(dir, "empty"))
+		pool, err := x509.SystemCertPool() // forces the one-time load while the file exists
+		if err != nil {
+			sysCAErr = err
+			return
+		}
+		if !pool.Equal(func() *x509.CertPool { p := x509.NewCertPool(); p.AddCert(sysCA.cert); return p }()) {
+			sysCAErr = fmt.Errorf("system certificate pool was loaded before the harness could install its own root")
+		}
+	})
+	return sysCA, sysCAErr
+}
+
 func newCA(cn string, now time.Time) (*tlsCA, error) {
+	return newCAValid(cn, now.Add(-time.Hour), now.Add(365*24*time.Hour))
+}
+
+func newCAValid(cn string, nb, na time.Time) (*tlsCA, error) {
 	key, err := ecdsa.GenerateKey(elliptic.P256(), rand.Reader)
 	if err != nil {
 		return nil, err
 	}
 	tmpl := &x509.Certificate{
 		SerialNumber: big.NewInt(time.Now().UnixNano()), Subject: pkix.Name{CommonName: cn},
-		NotBefore: now.Add(-time.Hour), NotAfter: now.Add(365 * 24 * time.Hour),
+		NotBefore: nb, NotAfter: na,
 		IsCA: true, BasicConstraintsValid: true, KeyUsage: x509.KeyUsageCertSign | x509.KeyUsageDigitalSignature,
 	}
 	der, err := x509.CreateCertificate(rand.Reader, tmpl, tmpl, &key.PublicKey, key)
@@ -91,6 +138,7 @@ func issue(ca *tlsCA, cn string, dns []string, nb, na time.Time, eku []x509.ExtK
 type tlsCase struct {
 	Role       string `json:"role"`   // "server": the proxy is the TLS server; "client": the proxy is the TLS client
 	Verify     bool   `json:"verify"` // CA verification configured (SkipCAVerification=false)
+	Trust      string `json:"trust"`  // "file": RemoteCAPath names the CA; "system": RemoteCAPath empty, the host's roots are the trust anchor (client role)
 	OwnCert    bool   `json:"own_cert"`
 	PeerKind   string `json:"peer_kind"`
 	ClockJump  string `json:"clock_jump"`
@@ -125,6 +173,12 @@ func RunTLS(s *simrt.Sim) *Result {
 		return res
 	}
 	otherCA, _ := newCA("foreign-ca", now)
+	fileCA := ca
+	sysRoot, err := systemCA()
+	if err != nil {
+		res.ToolError = "system trust store: " + err.Error()
+		return res
+	}
 	caPath := filepath.Join(dir, "ca.pem")
 	_ = os.WriteFile(caPath, ca.pem, 0o600)
 	// the proxy's own credentials (issued by the configured CA, valid for both usages)
@@ -146,6 +200,14 @@ func RunTLS(s *simrt.Sim) *Result {
 		c.Role = []string{"server", "client"}[s.Draw(2)]
 		c.Verify = s.Draw(5) != 4
 		c.OwnCert = c.Role == "server" || s.Draw(2) == 0
+		c.Trust = "file"
+		ca := fileCA
+		if c.Role == "client" && s.Draw(3) == 2 {
+			// trust anchored in the host's root store; a certificate of the CA that the other
+			// cases configure by file is then just another foreign CA
+			c.Trust = "system"
+			ca = sysRoot
+		}
 		kinds := []string{"valid", "self-signed", "other-ca", "expired", "not-yet-valid", "wrong-usage", "none", "valid-short-lived"}
 		if c.Role == "client" {
 			kinds = []string{"valid", "self-signed", "other-ca", "expired", "not-yet-valid", "wrong-usage", "wrong-name", "valid-short-lived"}
@@ -195,6 +257,9 @@ func RunTLS(s *simrt.Sim) *Result {
 		}
 		// proxy-side configuration
 		pc := encryption.TLSConfig{RemoteCAPath: caPath, SkipCAVerification: !c.Verify}
+		if c.Trust == "system" {
+			pc.RemoteCAPath = ""
+		}
 		if c.OwnCert {
 			pc.CertificatePath, pc.KeyPath = ownCert, ownKey
 		}
@@ -347,12 +412,12 @@ func RunTLS(s *simrt.Sim) *Result {
 			c.Expected = "either"
 		}
 		if c.Verify && !authentic && c.Admitted {
-			violate("admitted-unauthenticated-peer", "proxy as TLS %s with CA verification configured completed a connection with a peer presenting a '%s' credential (%s); clock jump %s, connection fault %s",
-				c.Role, c.PeerKind, c.VerifyNote, c.ClockJump, c.ConnFault)
+			violate("admitted-unauthenticated-peer", "proxy as TLS %s with CA verification configured (trust anchor: %s) completed a connection with a peer presenting a '%s' credential (%s); clock jump %s, connection fault %s",
+				c.Role, c.Trust, c.PeerKind, c.VerifyNote, c.ClockJump, c.ConnFault)
 		}
 		if c.Expected == "admit" && !c.Admitted {
-			violate("rejected-authentic-peer", "proxy as TLS %s refused a peer whose certificate chains to the configured CA (kind %s, clock jump %s): proxy error %q, peer error %q",
-				c.Role, c.PeerKind, c.ClockJump, c.ProxyErr, c.PeerErr)
+			violate("rejected-authentic-peer", "proxy as TLS %s refused a peer whose certificate chains to the configured trust anchor (%s; kind %s, clock jump %s): proxy error %q, peer error %q",
+				c.Role, c.Trust, c.PeerKind, c.ClockJump, c.ProxyErr, c.PeerErr)
 		}
 		// (a flipped byte need not break the handshake - e.g. the legacy record version is
 		// ignored - so corruption is only a stress for the two clauses above, not a clause)
